@@ -47,6 +47,7 @@ type checkCtx struct {
 	violations int
 	undecided  []string
 	start      time.Time
+	outDir     string
 	ev         *Evidence
 	post       func(*Evidence)
 }
@@ -124,6 +125,7 @@ func cmdCheck(args []string) {
 	prop := fs.String("prop", "", "property id")
 	tier := fs.String("tier", "quick", "")
 	writeBaseline := fs.Bool("write-baseline", false, "record the obligations that discharge (unchanged tree only)")
+	outDir := fs.String("out", "", "directory for evidence/ and replays/ (default: the verif directory)")
 	fs.Parse(args)
 	seed := 0
 	if v := os.Getenv("VERIF_SEED"); v != "" {
@@ -138,7 +140,10 @@ func cmdCheck(args []string) {
 		fmt.Fprintln(os.Stderr, "ENGINE-ERROR:", err)
 		os.Exit(2)
 	}
-	cc := &checkCtx{s: s, prop: *prop, tier: *tier, seed: seed, start: start}
+	cc := &checkCtx{s: s, prop: *prop, tier: *tier, seed: seed, start: start, outDir: *vdir}
+	if *outDir != "" {
+		cc.outDir = *outDir
+	}
 	cc.findings, err = loadFindings(filepath.Join(*vdir, "known_findings.json"))
 	if err != nil {
 		fmt.Fprintln(os.Stderr, "ENGINE-ERROR:", err)
@@ -292,11 +297,32 @@ func (cc *checkCtx) report(obs []*Obligation, reports []*FuncReport, writeBaseli
 	assumed := map[string]bool{}
 	okNames := map[string]bool{}
 	badNames := map[string]bool{}
+	var unreachable []string
+	reachUnknown := 0
 	for _, o := range obs {
 		for _, a := range o.Assumed {
 			assumed[a] = true
 		}
 		name := o.Name()
+		if o.ExpectSat && o.Kind == "reach" {
+			// vacuity guard per return site
+			switch {
+			case o.Res.Status == "sat":
+				total++
+				discharged++
+				okNames[name] = true
+			case o.Res.Status != "unsat":
+				// the solver cannot decide satisfiability (quantified axioms in scope): not counted either way
+				reachUnknown++
+			case cc.baseline[name]:
+				// reachable on the unchanged tree, unreachable now: the proofs behind it are vacuous -> undecided
+				fmt.Printf("VACUOUS-PATH property=%s %s (%s) is no longer reachable under the assumed contracts: obligations behind it are undecided\n", cc.prop, name, o.Site)
+				cc.undecided = append(cc.undecided, "vacuous: "+name)
+			default:
+				unreachable = append(unreachable, name+" "+o.Site)
+			}
+			continue
+		}
 		if o.ExpectSat {
 			total++
 			if o.Res.Status == "sat" {
@@ -379,7 +405,7 @@ func (cc *checkCtx) report(obs []*Obligation, reports []*FuncReport, writeBaseli
 		fnInfo = append(fnInfo, info)
 	}
 	// violations
-	os.MkdirAll(filepath.Join(s.vdir, "replays"), 0o755)
+	os.MkdirAll(filepath.Join(cc.outDir, "replays"), 0o755)
 	reported := map[string]bool{}
 	for _, o := range failed {
 		name := o.Name()
@@ -456,7 +482,7 @@ func (cc *checkCtx) report(obs []*Obligation, reports []*FuncReport, writeBaseli
 					break
 				}
 				cc.violations++
-				path := filepath.Join(s.vdir, "replays", sanitize(fmt.Sprintf("%s-standin-%d", cc.prop, i))+".txt")
+				path := filepath.Join(cc.outDir, "replays", sanitize(fmt.Sprintf("%s-standin-%d", cc.prop, i))+".txt")
 				os.WriteFile(path, []byte(fmt.Sprintf("property: %s\nbounded stand-in case failed on the real code: %s\nrerun: /verif/tools_standin.sh %s %d\n", cc.prop, fl, cc.prop, cc.seed)), 0o644)
 				fmt.Printf("VIOLATION property=%s replay=%s obligation=standin:%s\n", cc.prop, path, strings.SplitN(fl, " :: ", 2)[0])
 			}
@@ -501,6 +527,8 @@ func (cc *checkCtx) report(obs []*Obligation, reports []*FuncReport, writeBaseli
 		"samples":                   samples,
 		"known_findings":            kfOut,
 		"undecided":                 undec,
+		"unreachable_returns":       unreachable,
+		"reachability_undecided":    reachUnknown,
 		"stale_contracts":           stale,
 		"bounded_standins":          standins,
 		"concordance_runs":          concordRuns,
@@ -518,8 +546,8 @@ func (cc *checkCtx) report(obs []*Obligation, reports []*FuncReport, writeBaseli
 		cc.post(ev)
 	}
 	b, _ := json.MarshalIndent(ev, "", " ")
-	os.MkdirAll(filepath.Join(s.vdir, "evidence"), 0o755)
-	os.WriteFile(filepath.Join(s.vdir, "evidence", cc.prop+".json"), append(b, '\n'), 0o644)
+	os.MkdirAll(filepath.Join(cc.outDir, "evidence"), 0o755)
+	os.WriteFile(filepath.Join(cc.outDir, "evidence", cc.prop+".json"), append(b, '\n'), 0o644)
 	fmt.Printf("property=%s tier=%s obligations=%d discharged=%d violations=%d undecided=%d wall=%.1fs\n", cc.prop, cc.tier, total, discharged, cc.violations, len(undec), time.Since(cc.start).Seconds())
 	if concordMismatch > 0 {
 		return 2
@@ -560,7 +588,7 @@ func (cc *checkCtx) writeBaseline(ok, bad map[string]bool) {
 
 // replayNoInput writes a replay file that names the failed obligation and carries the solver output.
 func (cc *checkCtx) replayNoInput(o *Obligation, why string) string {
-	path := filepath.Join(cc.s.vdir, "replays", sanitize(cc.prop+"-"+o.Name())+".txt")
+	path := filepath.Join(cc.outDir, "replays", sanitize(cc.prop+"-"+o.Name())+".txt")
 	var b strings.Builder
 	fmt.Fprintf(&b, "property: %s\nfailed obligation: %s\nclause: %s\npath: %d\nsite: %s\nclass: %s\nreason: %s\n", cc.prop, o.Name(), o.Src, o.Path, o.Site, classOf(o), why)
 	fmt.Fprintf(&b, "solver answer: %s (%s)\nper-backend: %v\n--- solver output ---\n%s\n", o.Res.Status, o.Res.Backend, o.Res.Agree, o.Res.Raw)
